@@ -4,7 +4,7 @@ from . import impl, model, gen, sx, xmlsx
 
 URIS = ['/akn/za/act/2009/1', '/akn/za-cpt/act/by-law/2010/public-places', '/akn/na/judgment/nasc/2020/5',
         '/akn/za/act/2009/10/afr@2012-06-01', '/akn/ke/act/ln/2011/5/swa@', '/akn/za/act/2009/10/eng@2010-01-01/!main']
-PREFIXES = ['', '', '', 'p_1', 'chp_1__sec_2']
+PREFIXES = ['', '', '', 'p_1', 'chp_1__sec_2', '_tmp', 'a__']
 
 def doc_cases(ctx, n, roots=None, unique=False):
     out = []
